@@ -97,8 +97,38 @@ class Extracted:
         self.end_line = 0
 
 
+GENERATED = {'src/expr-info.cc': 'expr-info.cc', 'nl-writer2/include/mp/nl-opcodes.h': 'nl-opcodes.h'}
+_generated_dir = [None]
+
+
+def generated_dir():
+    """src/expr-info.cc and nl-opcodes.h are build products (git-ignored): they are regenerated on every run from the current
+    src/gen-expr-info.cc, exactly as the CMake rule does, so a change of the generator or of common.h is seen."""
+    if _generated_dir[0]:
+        return _generated_dir[0]
+    import subprocess
+    import fcntl
+    d = os.path.join(os.path.dirname(os.path.dirname(os.path.abspath(__file__))), 'build', 'generated')
+    os.makedirs(d, exist_ok=True)
+    with open(os.path.join(d, '.lock'), 'w') as lock:
+        fcntl.flock(lock, fcntl.LOCK_EX)
+        gen = os.path.join(d, 'gen-expr-info')
+        cmd = ['g++', '-std=c++17', '-w', '-O0', '-I', os.path.join(REPO, 'include')] + \
+              [os.path.join(REPO, x) for x in ('src/gen-expr-info.cc', 'src/format.cc', 'src/posix.cc')] + ['-o', gen]
+        p = subprocess.run(cmd, capture_output=True, text=True)
+        if p.returncode != 0:
+            raise ExtractionError('gen-expr-info does not build: ' + p.stderr[-800:])
+        p = subprocess.run([gen, os.path.join(d, 'expr-info.cc'), os.path.join(d, 'nl-opcodes.h')], capture_output=True, text=True, timeout=60)
+        if p.returncode != 0:
+            raise ExtractionError('gen-expr-info failed: ' + (p.stdout + p.stderr)[-800:])
+    _generated_dir[0] = d
+    return d
+
+
 def read_repo(relpath):
     p = os.path.join(REPO, relpath)
+    if relpath in GENERATED:
+        p = os.path.join(generated_dir(), GENERATED[relpath])
     try:
         with open(p, encoding='utf-8', errors='replace') as f:
             return f.read()
